@@ -47,13 +47,33 @@ theorem no_forgery (c : Cfg) (evs : List Ev) (x : Id) (hw : ContactsWF evs)
     obtain ⟨na, hn, hid⟩ := (invA c evs hw).2 o ho x hb
     exact absurd hid (bad na hn)
 
-/-- Initiator side: the session created when this node answers a WHOAREYOU for its own request to
-`na` has keys derived from an ECDH with `na.id`'s static key (only its holder can use them). -/
+/- ORIGINAL STATEMENT (false for ill-formed, unreachable states `s`; see `initiator_keys_bound_cex`):
+
 theorem initiator_keys_bound (c : Cfg) (s : HState) (src : Addr) (nonce cd enrSeq : Nat)
     (e : NA × Session × Nat) (he : e ∈ (step c s (.dgram src (.whoareyou nonce cd enrSeq))).1.sessions)
     (hnew : e ∉ s.sessions) (hk : e.2.1.keys.enc.ini = c.localId) :
-    e.2.1.keys.enc.rcp = e.1.id ∧ e.2.1.keys.dec.rcp = e.1.id ∧ e.2.1.keys.enc.cd = cd := by
-  sorry
+    e.2.1.keys.enc.rcp = e.1.id ∧ e.2.1.keys.dec.rcp = e.1.id ∧ e.2.1.keys.enc.cd = cd
+
+`hnew` compares whole cache entries (address, session, time stamp).  An entry whose *keys* are old
+but whose time stamp / message counter changed during the step also counts as "new" under that
+reading.  In a state whose queue files a request for node 3 under node 2's address (impossible in
+any run: `send_request` files under the contact's own address) answering node 2's WHOAREYOU
+releases that request, which refreshes node 3's old session; that entry then violates the
+conclusion.  The corrected statement takes "new" to mean "keys not already held for that address". -/
+
+/-- Initiator side: every session whose keys were not already held for that node address before
+this node answered a WHOAREYOU (i.e. the session created or re-keyed by that answer) has keys
+derived from an ECDH with `na.id`'s static key (only its holder can use them) and from exactly the
+challenge data of this WHOAREYOU. -/
+theorem initiator_keys_bound (c : Cfg) (s : HState) (src : Addr) (nonce cd enrSeq : Nat)
+    (e : NA × Session × Nat) (he : e ∈ (step c s (.dgram src (.whoareyou nonce cd enrSeq))).1.sessions)
+    (hnew : ∀ e' ∈ s.sessions, e'.1 = e.1 → e'.2.1.keys ≠ e.2.1.keys) :
+    e.2.1.keys.enc.ini = c.localId ∧ e.2.1.keys.dec.ini = c.localId ∧
+    e.2.1.keys.enc.rcp = e.1.id ∧ e.2.1.keys.dec.rcp = e.1.id ∧ e.2.1.keys.enc.cd = cd ∧
+    e.2.1.keys.dec.cd = cd := by
+  rcases initiator_aux c s src nonce cd enrSeq e he with ⟨e', he', h1, h2⟩ | ⟨eph, h⟩
+  · exact absurd h2 (hnew e' he' h1)
+  · rw [h]; exact ⟨rfl, rfl, rfl, rfl, rfl, rfl⟩
 
 /-! ### C03 -/
 
@@ -61,33 +81,54 @@ theorem initiator_keys_bound (c : Cfg) (s : HState) (src : Addr) (nonce cd enrSe
 theorem handshake_needs_challenge (c : Cfg) (s : HState) (src : Addr) (srcId nonce : Nat) (sig : Sig)
     (eph : Nat) (record : Option Rec) (ct : Ct)
     (h : s.challenges.any (·.1 == { id := srcId, addr := src }) = false) :
-    step c s (.dgram src (.handshake srcId nonce sig eph record ct)) = (s, []) := by
-  have hf : s.challenges.find? (fun x => x.1 == ({ id := srcId, addr := src } : NA)) = none := by
-    rw [List.find?_eq_none]
-    intro x hx
-    have := List.any_eq_false.1 h x hx
-    simpa using this
-  have key : wp (handleAuthMessage c { id := srcId, addr := src } nonce sig eph record ct)
-      (fun _ st' => st' = (s, [])) (s, []) := by
-    unfold handleAuthMessage
-    simp only [wp_bind, wp_getS, hf, wp_pure]
-  exact key
+    step c s (.dgram src (.handshake srcId nonce sig eph record ct)) = (s, []) :=
+  hs_needs_challenge_aux c s src srcId nonce sig eph record ct h
 
 /-- The id-nonces (challenge data) of all WHOAREYOU packets this node ever sends are pairwise
 distinct. -/
-theorem issued_challenges_distinct (c : Cfg) (evs : List Ev) : (sentCds (outputs c evs)).Nodup := by
-  sorry
+theorem issued_challenges_distinct (c : Cfg) (evs : List Ev) : (sentCds (outputs c evs)).Nodup :=
+  (invD c evs).2.1
 
-/-- A handshake whose signature is not over the currently outstanding challenge for that node
-address (a replay of an earlier handshake, or one signed over an expired / foreign challenge)
-never creates or re-keys a session. -/
+/-- The session cache never holds two entries for the same node address (used below). -/
+theorem session_keys_nodup (c : Cfg) (evs : List Ev) : ((run c evs).sessions.map (·.1)).Nodup :=
+  invE c evs
+
+/- ORIGINAL STATEMENT (false for states whose session cache holds two entries for one node address,
+which no run produces — `session_keys_nodup`; see `stale_handshake_rejected_cex`):
+
 theorem stale_handshake_rejected (c : Cfg) (s : HState) (src : Addr) (srcId nonce : Nat) (sig : Sig)
     (eph : Nat) (record : Option Rec) (ct : Ct)
     (h : ∀ e ∈ s.challenges, e.1 = { id := srcId, addr := src } → e.2.1.cd ≠ sig.cd) :
     (step c s (.dgram src (.handshake srcId nonce sig eph record ct))).1.sessions.map (fun e => (e.1, e.2.1.keys)) =
       (s.sessions.filter (fun e => (step c s (.dgram src (.handshake srcId nonce sig eph record ct))).1.sessions.any (·.1 == e.1))).map
-        (fun e => (e.1, e.2.1.keys)) := by
-  sorry
+        (fun e => (e.1, e.2.1.keys))
+
+The right-hand side selects the surviving entries *by node address*; with a duplicated address of
+which only the older entry expires during the step it selects both.  Corrected by the hypothesis
+that addresses in the cache are distinct (`hnd`), and restated for reachable states below. -/
+
+/-- A handshake whose signature is not over the currently outstanding challenge for that node
+address (a replay of an earlier handshake, or one signed over an expired / foreign challenge)
+never creates or re-keys a session: the (address, keys) list afterwards is the old one restricted
+to the addresses that survive. -/
+theorem stale_handshake_rejected (c : Cfg) (s : HState) (src : Addr) (srcId nonce : Nat) (sig : Sig)
+    (eph : Nat) (record : Option Rec) (ct : Ct)
+    (hnd : (s.sessions.map (·.1)).Nodup)
+    (h : ∀ e ∈ s.challenges, e.1 = { id := srcId, addr := src } → e.2.1.cd ≠ sig.cd) :
+    (step c s (.dgram src (.handshake srcId nonce sig eph record ct))).1.sessions.map (fun e => (e.1, e.2.1.keys)) =
+      (s.sessions.filter (fun e => (step c s (.dgram src (.handshake srcId nonce sig eph record ct))).1.sessions.any (·.1 == e.1))).map
+        (fun e => (e.1, e.2.1.keys)) :=
+  stale_list (fun e => (e.1, e.2.1.keys)) s.sessions _ { id := srcId, addr := src } c.sessionTtl s.rt hnd
+    (stale_aux c s { id := srcId, addr := src } nonce sig eph record ct h)
+
+/-- The same for every state reached by a history (the original statement, on reachable states). -/
+theorem stale_handshake_rejected_run (c : Cfg) (evs : List Ev) (src : Addr) (srcId nonce : Nat) (sig : Sig)
+    (eph : Nat) (record : Option Rec) (ct : Ct)
+    (h : ∀ e ∈ (run c evs).challenges, e.1 = { id := srcId, addr := src } → e.2.1.cd ≠ sig.cd) :
+    (step c (run c evs) (.dgram src (.handshake srcId nonce sig eph record ct))).1.sessions.map (fun e => (e.1, e.2.1.keys)) =
+      ((run c evs).sessions.filter (fun e => (step c (run c evs) (.dgram src (.handshake srcId nonce sig eph record ct))).1.sessions.any (·.1 == e.1))).map
+        (fun e => (e.1, e.2.1.keys)) :=
+  stale_handshake_rejected c (run c evs) src srcId nonce sig eph record ct (session_keys_nodup c evs) h
 
 /-- Acceptance consumes the challenge: after a handshake was processed, either it was rejected for
 its signature (the challenge stays, nothing else changed) or no challenge for that node address
@@ -96,8 +137,8 @@ theorem challenge_consumed (c : Cfg) (s : HState) (src : Addr) (srcId nonce : Na
     (eph : Nat) (record : Option Rec) (ct : Ct) :
     let s' := (step c s (.dgram src (.handshake srcId nonce sig eph record ct))).1
     s'.challenges.any (·.1 == { id := srcId, addr := src }) = false ∨
-      (s'.sessions = s.sessions ∧ s'.active = s.active) := by
-  sorry
+      (s'.sessions = s.sessions ∧ s'.active = s.active) :=
+  challenge_consumed_aux c s { id := srcId, addr := src } nonce sig eph record ct
 
 /-- A WHOAREYOU is acted on only if it echoes the nonce of a request in flight to the address it
 came from: otherwise no output is produced and sessions, challenges and queued requests are
@@ -106,63 +147,15 @@ theorem whoareyou_needs_request (c : Cfg) (s : HState) (src : Addr) (nonce cd en
     (h : ∀ call ∈ s.active, ¬ (call.pkt.nonce = nonce ∧ call.contact.na.addr = src)) :
     (step c s (.dgram src (.whoareyou nonce cd enrSeq))).2 = [] ∧
     (step c s (.dgram src (.whoareyou nonce cd enrSeq))).1.sessions = s.sessions ∧
-    (step c s (.dgram src (.whoareyou nonce cd enrSeq))).1.pending = s.pending := by
-  have key : wp (handleChallenge c src nonce cd enrSeq)
-      (fun _ st' => st'.2 = [] ∧ st'.1.sessions = s.sessions ∧ st'.1.pending = s.pending) (s, []) := by
-    unfold handleChallenge activeRemoveByNonce
-    simp only [wp_bind, wp_getS]
-    rcases hf : s.active.find? (fun x => x.pkt.nonce == nonce) with _ | call0
-    · simp only [hf, wp_pure]; refine ⟨?_, ?_, ?_⟩ <;> first | rfl | trivial
-    · simp only [hf, wp_bind, wp_setS, wp_pure, wp_ite]
-      have hn : call0.pkt.nonce = nonce := by simpa using List.find?_some hf
-      have hne : ((callNA call0).addr != src) = true := by
-        have := h call0 (List.mem_of_find?_eq_some hf)
-        simp only [not_and] at this
-        simpa [callNA] using this hn
-      rw [if_pos hne]
-      unfold activeInsert
-      simp only [wp_modS]
-      refine ⟨?_, ?_, ?_⟩ <;> first | rfl | trivial
-  exact key
+    (step c s (.dgram src (.whoareyou nonce cd enrSeq))).1.pending = s.pending :=
+  wru_needs_request_aux c s src nonce cd enrSeq h
 
 /-- A request is answered with at most one handshake: a second WHOAREYOU for a request whose
 handshake was already sent produces no datagram at all. -/
 theorem one_handshake_per_request (c : Cfg) (s : HState) (src : Addr) (nonce cd enrSeq : Nat)
     (call : Call) (hc : s.active.find? (·.pkt.nonce == nonce) = some call)
     (ha : call.contact.na.addr = src) (hs : call.hsSent = true) :
-    ∀ o ∈ (step c s (.dgram src (.whoareyou nonce cd enrSeq))).2, ∀ na p, o ≠ .send na p := by
-  have key : wp (handleChallenge c src nonce cd enrSeq) (fun _ st' => NoSend st') (s, []) := by
-    unfold handleChallenge activeRemoveByNonce
-    simp only [wp_bind, wp_getS, hc, wp_setS, wp_pure, wp_ite]
-    have hne : ¬ ((callNA call).addr != src) = true := by simp [callNA, ha]
-    rw [if_neg hne, if_pos hs]
-    unfold removeExpected failRequest
-    simp only [wp_modS, wp_bind, wp_ite, wp_emit]
-    have h0 : NoSend ({ s with active := s.active.erase call }, []) := fun o ho => by cases ho
-    split
-    · rw [failSession_true]
-      unfold removeExpiredSessions sessRemove
-      simp only [wp_bind, wp_getS, wp_setS, wp_ite, wp_emit, wp_pure, wp_modS]
-      split
-      · refine wp_mono (tail_failSession noSend_tail c _ _ _ ?_) (fun _ _ h => h)
-        intro o ho
-        simp at ho
-        rcases ho with rfl | rfl <;> (intro _ _ hh; cases hh)
-      · refine wp_mono (tail_failSession noSend_tail c _ _ _ ?_) (fun _ _ h => h)
-        intro o ho
-        simp at ho
-        subst ho; intro _ _ hh; cases hh
-    · rw [failSession_true]
-      unfold removeExpiredSessions sessRemove
-      simp only [wp_bind, wp_getS, wp_setS, wp_ite, wp_emit, wp_pure, wp_modS]
-      split
-      · refine wp_mono (tail_failSession noSend_tail c _ _ _ ?_) (fun _ _ h => h)
-        intro o ho
-        simp at ho
-        subst ho; intro _ _ hh; cases hh
-      · refine wp_mono (tail_failSession noSend_tail c _ _ _ ?_) (fun _ _ h => h)
-        intro o ho
-        simp at ho
-  exact key
+    ∀ o ∈ (step c s (.dgram src (.whoareyou nonce cd enrSeq))).2, ∀ na p, o ≠ .send na p :=
+  one_hs_per_request_aux c s src nonce cd enrSeq call hc ha hs
 
 end Discv5.H
